@@ -549,6 +549,23 @@ func callSSA(i *interpreter, caller *frame, callpos token.Pos, fn *ssa.Function,
 			return ext(fr, args)
 		}
 		if fn.Blocks == nil {
+			if i.ex != nil && i.ex.inInit {
+				// package-level initialisers that call unmodelled library code
+				// (templates, regexps, ...): leave the variable at its zero value;
+				// any later use surfaces as unsupported / nil dereference.
+				res := fn.Signature.Results()
+				switch res.Len() {
+				case 0:
+					return nil
+				case 1:
+					return zero(res.At(0).Type())
+				}
+				t := make(tuple, res.Len())
+				for k := range t {
+					t[k] = zero(res.At(k).Type())
+				}
+				return t
+			}
 			panic(unsupported("no model for external function %s", name))
 		}
 	}
